@@ -363,6 +363,14 @@ def scenarios_c05():
     out.append(('traits1|claim|del_inv',
                 {'A': writers['traits1']('cur'), 'B': derived['claim'],
                  'C': derived['del_inv']}))
+    # a deadlock reported at the COMMIT of one guarded write while another
+    # one carrying the same generation is in flight: whether the server gives
+    # up (5xx, nothing stored) or tries again, at most one of them is applied
+    for a, b in (('invs1', 'invs2'), ('inv', 'traits1'), ('traits1', 'aggs1'),
+                 ('aggs1', 'invs1')):
+        out.append(('%s (deadlock at COMMIT)|%s' % (a, b),
+                    {'A': writers[a]('cur'), 'B': writers[b]('cur')}, None,
+                    {'A': ('DLC', 'resource_providers')}))
     # provider-writing requests that neither carry nor advance a generation
     # (rename, re-parent): they read the provider in one transaction and
     # write it in another
@@ -441,6 +449,23 @@ def scenarios_c06():
             ('put existing consumer', put_alloc(K1, a2, 'cur', 'pA'))):
         out.append(('reshape creating K3 | %s' % oname, {
             'A': reshape_move(R, 'VCPU', C, newc=K3), 'B': ob}))
+    for nm, aa in (('post', post_allocs({K1: (a2, 'cur', 'pA')})),
+                   ('put', put_alloc(K1, a2, 'cur', 'pA')),
+                   ('reshape', reshape_move(R, 'VCPU', C))):
+        out.append(('existing: %s (deadlock at COMMIT)|put' % nm, {
+            'A': aa, 'B': put_alloc(K1, a1, 'cur', 'pB')}, None,
+            {'A': ('DLC', 'consumers')}))
+    def _solo6(client):
+        r = client.call('PUT', '/allocations/%s' % K4, {
+            'allocations': {E: {'resources': {'VCPU': 2}}},
+            'project_id': 'pS', 'user_id': 'uS',
+            'consumer_generation': None, 'consumer_type': 'INSTANCE'})
+        assert r.status == 204, r.status
+    for nm, aa in (('post', post_allocs({K4: (a3, 'cur', 'pA')})),
+                   ('put', put_alloc(K4, a3, 'cur', 'pA'))):
+        out.append(('solo on E: %s (deadlock at COMMIT)|put' % nm, {
+            'A': aa, 'B': put_alloc(K4, {E: {'VCPU': 3}}, 'cur', 'pB')},
+            _solo6, {'A': ('DLC', 'consumers')}))
     out.append(('existing: put-clear|put', {
         'A': put_alloc(K1, {}, 'cur', 'pA'),
         'B': put_alloc(K1, a1, 'cur', 'pB')}))
@@ -624,6 +649,14 @@ def scenarios_c07():
             ('claim', put_alloc(K3, {E: {'VCPU': 1}}, 'null'))):
         out.append(('reshape retiring E and its consumer | %s' % oname,
                     {'A': reshape_drop(E), 'B': ob}, _solo))
+    # a consumer releasing everything while another write moves the
+    # generation of the provider it leaves (the server retries the release)
+    out.append(('release of solo consumer on E | claim on E', {
+        'A': put_alloc(K4, {}, 'cur', 'pS', 'uS'),
+        'B': put_alloc(K3, {E: {'VCPU': 1}}, 'null')}, _solo))
+    out.append(('release of solo consumer on E (post) | inventory of E', {
+        'A': post_allocs({K4: ({}, 'cur', 'pS')}),
+        'B': put_inv(E, 'VCPU', 'cur', {'total': 6})}, _solo))
     out.append(('reshape emptying S | traits of S', {
         'A': reshape_drop(S), 'B': put_traits(S, 'cur', ['CUSTOM_UNUSED'])}))
     out.append(('claim vs delete of other consumer + inventory shrink', {
@@ -748,6 +781,9 @@ def judge(pid, scen_name, reqs, d0, result, serial, res, use_serial=True):
                       '%s: %s' % (scen_name, result['errors']), wit)
         return outcome
     for n in names:
+        if (reqs[n]['tag'] or {}).get('faulted') and \
+                statuses[n] is not None:
+            continue
         if statuses[n] is None or statuses[n] >= 500:
             esc = results[n].escaped if results[n] is not None else None
             res.violation(
@@ -1037,6 +1073,10 @@ def run_scenarios(pid, scenarios, spec, res, use_serial=True):
                 d0 = svc.dump()
             faults = scenarios[idx][3] if len(scenarios[idx]) > 3 else None
             reqs = {n: b(d0) for n, b in builders.items()}
+            for n in (faults or {}):
+                if faults[n][0] == 'DLC':
+                    # (a 5xx of the request hit by the fault is no defect)
+                    reqs[n]['tag'] = dict(reqs[n]['tag'] or {}, faulted=True)
             serial = SerialCache(svc, snap, reqs)
             rng = random.Random('%s/%s/%s' % (pid, spec['seed'], name))
 
@@ -1050,14 +1090,32 @@ def run_scenarios(pid, scenarios, spec, res, use_serial=True):
                 import threading
                 fired = set()
 
+                wrote = set()
+
                 def hook(phase, ekind, text, params, conn, idx):
-                    if phase != 'before' or ekind != 'stmt':
+                    if phase != 'before' or ekind not in ('stmt', 'commit'):
                         return
                     w = sc.workers.get(threading.get_ident())
                     if w is None or w.name not in faults or \
                             w.name in fired:
                         return
                     kind, table = faults[w.name]
+                    if kind == 'DLC':
+                        # a deadlock reported at the COMMIT of the
+                        # transaction that updated `table` (how a Galera
+                        # certification failure shows): nothing of that
+                        # transaction is stored
+                        if ekind == 'stmt' and text.lstrip().upper(
+                                ).startswith('UPDATE ' + table.upper()):
+                            wrote.add(w.name)
+                        elif ekind == 'commit' and w.name in wrote:
+                            from oslo_db import exception as db_exc
+                            fired.add(w.name)
+                            res.count('faults_injected_in_schedules')
+                            watch.inject_next = db_exc.DBDeadlock()
+                        return
+                    if ekind != 'stmt':
+                        return
                     if text.lstrip().upper().startswith(
                             'INSERT INTO ' + table.upper()):
                         fired.add(w.name)
